@@ -593,19 +593,32 @@ package modeling
 //@   ensures [C01,C02,C03] fresh_map: fresh(r) && r != nil
 //@   ensures keys: forall k string :: has(r, k) <==> has(a, k) || has(b, k)
 //@   ensures [C01,C02,C03] fresh_arrays: forall k string :: has(r, k) ==> fresh(r[k]) && len(r[k]) == aLen + bLen
+//@   ensures [C03] first_block_is_a: forall k string, j int :: has(a, k) && 0 <= j && j < aLen ==> r[k][j] == a[k][j]
+//@   ensures [C03] second_block_is_b: forall k string, j int :: has(b, k) && 0 <= j && j < bLen ==> r[k][aLen + j] == b[k][j]
 //@   loop 1:
+//@     invariant [C03] distinct_arrays: forall k1 string, k2 string :: has(finalData, k1) && has(finalData, k2) && k1 != k2 ==> ref(finalData[k1]) != ref(finalData[k2])
+//@     invariant [C03] first_block: forall k string, j int :: has(finalData, k) && 0 <= j && j < aLen ==> finalData[k][j] == a[k][j]
 //@     invariant [C01,C02,C03] map: fresh(finalData) && finalData != nil
 //@     invariant [C01,C02,C03] keys: forall k string :: has(finalData, k) <==> seen(k)
 //@     invariant [C01,C02,C03] arrays: forall k string :: has(finalData, k) ==> fresh(finalData[k]) && allocated(finalData[k]) && len(finalData[k]) == aLen + (has(b, k) ? 0 : bLen)
 //@   loop 2:
+//@     invariant [C03] distinct_arrays: forall k1 string, k2 string :: has(finalData, k1) && has(finalData, k2) && k1 != k2 ==> ref(finalData[k1]) != ref(finalData[k2])
+//@     invariant [C03] first_block_others: forall k string, j int :: has(finalData, k) && k != atr && 0 <= j && j < aLen ==> finalData[k][j] == a[k][j]
+//@     invariant [C03] first_block_this: forall j int :: 0 <= j && j < aLen ==> finalData[atr][j] == a[atr][j]
 //@     invariant [C01,C02,C03] map: fresh(finalData) && finalData != nil && has(finalData, atr) && has(a, atr) && !has(b, atr) && 0 <= i && i <= bLen
 //@     invariant [C01,C02,C03] keys: forall k string :: has(finalData, k) <==> (seen(k) || k == atr)
 //@     invariant [C01,C02,C03] arrays: forall k string :: has(finalData, k) ==> fresh(finalData[k]) && allocated(finalData[k]) && len(finalData[k]) == ((k == atr) ? aLen + i : aLen + (has(b, k) ? 0 : bLen))
 //@   loop 3:
+//@     invariant [C03] distinct_arrays: forall k1 string, k2 string :: has(finalData, k1) && has(finalData, k2) && k1 != k2 ==> ref(finalData[k1]) != ref(finalData[k2])
+//@     invariant [C03] first_block: forall k string, j int :: has(a, k) && 0 <= j && j < aLen ==> finalData[k][j] == a[k][j]
+//@     invariant [C03] second_block: forall k string, j int :: seen(k) && 0 <= j && j < bLen ==> finalData[k][aLen + j] == b[k][j]
 //@     invariant [C01,C02,C03] map: fresh(finalData) && finalData != nil
 //@     invariant [C01,C02,C03] keys: forall k string :: has(finalData, k) <==> has(a, k) || seen(k)
 //@     invariant [C01,C02,C03] arrays: forall k string :: has(finalData, k) ==> fresh(finalData[k]) && allocated(finalData[k]) && len(finalData[k]) == aLen + ((has(b, k) && !seen(k)) ? 0 : bLen)
 //@   loop 4:
+//@     invariant [C03] distinct_arrays: forall k1 string, k2 string :: has(finalData, k1) && has(finalData, k2) && k1 != k2 ==> ref(finalData[k1]) != ref(finalData[k2])
+//@     invariant [C03] first_block: forall k string, j int :: has(a, k) && 0 <= j && j < aLen ==> finalData[k][j] == a[k][j]
+//@     invariant [C03] second_block: forall k string, j int :: seen(k) && k != atr && 0 <= j && j < bLen ==> finalData[k][aLen + j] == b[k][j]
 //@     invariant [C01,C02,C03] map: fresh(finalData) && finalData != nil && has(b, atr) && !has(a, atr) && 0 <= i && i <= aLen
 //@     invariant [C01,C02,C03] keys: forall k string :: has(finalData, k) <==> has(a, k) || (seen(k) && (k != atr || i > 0))
 //@     invariant [C01,C02,C03] arrays: forall k string :: has(finalData, k) ==> fresh(finalData[k]) && allocated(finalData[k]) &&
